@@ -46,6 +46,10 @@
                        storage/c/received.mpd); nothing appears outside the storage root.
    X06.mpd.stored      an accepted MPD upload (PUT/POST prefix/c/<any>.mpd) is answered 200 and storage/c/received.mpd
                        holds the body.
+   X06.mpd.written     "A DASH MPD with $Number$ is generated for each channel and stored as storage/channel/manifest.mpd ...
+                       once two video segments of the same duration have been received, a SegmentTimelineNr MPD is
+                       generated": after two accepted video segments manifest.mpd exists, after three complete rounds of
+                       all tracks manifest_timeline_nr.mpd exists (their content is X02 / C17's subject).
    X06.tsbd.mpd        manifest.mpd and manifest_timeline_nr.mpd of c announce timeShiftBufferDepth = tsbd(c).
    X06.tsbd.keep       a media file is only removed when it lies completely before the time shift buffer of the newest
                        upload of its track: removed number <= newest - tsbd/D.
